@@ -622,7 +622,7 @@ func replyMarker(r dht.QueryResult) string {
 
 func init() {
 	kit.Register("C07a",
-		"rapid: 1..10 outbound queries (Query, Ping, FindNode, GetPeers, Get) to 1..4 destinations from a tiny pool (same IP / other port, same port / other IP, IPv4, v4-mapped, IPv6), some with their first datagram parked inside the socket write, all with a one-hour virtual resend delay, interleaved with up to 50 events: start, cancel, release, and datagrams - the correct reply or error for query j; j's transaction ID from another port / another IP / the other byte form of the same IPv4 address; the right address with t+1, a prefix, an extension, the empty string or another live query's transaction ID; duplicates of an earlier correct reply. Every crafted reply carries a unique marker. Oracle (model: a query completes exactly when the first datagram from its destination address with its transaction ID is delivered while its transaction is registered): after each event and a quiescence barrier exactly the queries the model names have returned, each with the marked datagram (or context.Canceled); the node's outstanding-transaction count equals the model's; transaction IDs of simultaneously outstanding queries are distinct; at the end cancelling returns context.Canceled for every query the model says is still incomplete. Non-trivial: a near-miss datagram arrived while >= 2 queries were outstanding to that address.",
+		"rapid: 1..10 outbound queries (Query, Ping, FindNode, GetPeers, Get) to 1..4 destinations from a tiny pool (same IP / other port, same port / other IP, IPv4, v4-mapped, IPv6, link-local with a scope zone; two adjacent ports drawn from all over the 16-bit range), some with their first datagram parked inside the socket write, some refused by the socket (also after the parking), all with a one-hour virtual resend delay, interleaved with up to 50 events: start, cancel, release, and datagrams - the correct reply or error for query j; j's transaction ID from another port / another IP / the other byte form of the same IPv4 address; the right address with t+1, a prefix, an extension, the empty string or another live query's transaction ID; duplicates of an earlier correct reply; the port's last decimal digit moved into the transaction ID and back; the same link-local address on another zone; an inbound query carrying the transaction ID. Every crafted reply carries a unique marker. Oracle (model: a query completes exactly when the first datagram from its destination address with its transaction ID is delivered while its transaction is registered): after each event and a quiescence barrier exactly the queries the model names have returned, each with the marked datagram (or context.Canceled); the node's outstanding-transaction count equals the model's; transaction IDs of simultaneously outstanding queries are distinct; at the end cancelling returns context.Canceled for every query the model says is still incomplete. Non-trivial: a near-miss datagram arrived while >= 2 queries were outstanding to that address.",
 		[]string{"the 4-byte and v4-mapped forms of one IPv4 address are the same address (same IP and port as reported)", "a reply that arrives after its query was cancelled but before the (parked) sender let the query return is lost, not delivered to anyone"},
 		genC07, runC07)
 }
